@@ -335,10 +335,35 @@ def run(ctx):
     if not use_lean:
         ctx.notes.append("Lean driver not available: only the direct oracle (Python reference of the spec) ran")
     run_corpus(ctx)
+    disable_introspection_probe(ctx)
     deep_generic_executor(ctx)
     shared_document_fixed(ctx)
     from corr import C04_default
     C04_default.run(ctx)       # plain data + the real default_resolver
+
+
+def disable_introspection_probe(ctx):
+    """the documented option `disable_introspection=True`: a validated document still gets one value per response key"""
+    from py_gql import build_schema, process_graphql_query
+    sdl = "type Query { a: Int, pet: Pet }\ntype Pet { name: String }\n"
+    schema = build_schema(sdl)
+    schema.default_resolver = lambda root, c, info, **a: {"a": 1, "name": "Rex", "pet": {}}.get(info.field_definition.name)
+    for meta, text, keys in (("__typename", "{ a t: __typename pet { __typename name } }", ["a", "t", "pet"]),
+                             ("__schema", "{ __schema { queryType { name } } a }", ["__schema", "a"]),
+                             ("__type", "{ __type(name: \"Query\") { name } a }", ["__type", "a"])):
+        try:
+            r = process_graphql_query(schema, text, disable_introspection=True)
+            got = list(r.data.keys()) if isinstance(r.data, dict) else None
+            errs = len(r.errors or [])
+        except Exception as e:  # noqa
+            got, errs = "raises:" + type(e).__name__, 0
+        ctx.count()
+        ctx.stat("disable-introspection:%s:%s" % (meta, "all-keys" if got == keys else "keys-missing"))
+        if got != keys and not errs:
+            ctx.fail("response-key-missing:disable-introspection:%s" % meta,
+                     "with disable_introspection=True a validated document loses selected response keys without any error: "
+                     "selected %s, data has %s" % (keys, got),
+                     {"sdl": sdl, "document": text, "stream": "disable-introspection", "keys": keys, "got": got}, kind="property")
 
 
 def deep_generic_executor(ctx):
@@ -481,6 +506,21 @@ def run_corpus(ctx):
 
 def replay(ctx, data, quiet=False):
     inp = data.get("input", data)
+    if inp.get("stream") == "disable-introspection":
+        class _C3:
+            def __init__(self):
+                self.bad = []
+            def fail(self, sig, *a, **k):
+                self.bad.append(sig)
+            def count(self, k=1):
+                pass
+            def stat(self, n, k=1):
+                pass
+        c3 = _C3()
+        disable_introspection_probe(c3)
+        if c3.bad:
+            print("fails:", c3.bad)
+        return not c3.bad
     if inp.get("stream") == "deep-generic-executor":
         class _C2:
             def __init__(self):
